@@ -196,6 +196,13 @@ def network_case(draw):
     eq = draw(netgen.equipment(edfa=lib))
     chain_kw = {'fiber_kw': {'lumped': False, 'per_freq_loss': True, 'loss': (0.17, 0.32)}}
     topo, truth = draw(netgen.topology(eq, n=(2, 4), extra_max=2, chain_kw=chain_kw))
+    # more fibres with a per-frequency loss around the Raman limit (lowest value at the reference frequency)
+    for f in [e for e in topo['elements'] if e['type'] == 'Fiber' and not isinstance(e['params']['loss_coef'], dict)]:
+        if draw(st.integers(0, 3)) == 0:
+            base = draw(st.sampled_from([0.19, 0.2, 0.24, 0.245, 0.29]))
+            shape = draw(st.sampled_from([[0.03, -0.01, -0.005, 0.04], [0.06, 0.02, 0.0, 0.0], [0.02, 0.0, 0.01, 0.03]]))
+            f['params']['loss_coef'] = {'value': [round(base + d, 4) for d in shape],
+                                        'frequency': [184e12, 190e12, 194e12, 198e12]}
     return {'eq': eq, 'topo': topo, 'truth': truth}
 
 
@@ -480,7 +487,7 @@ def roadm_list(eq_json, el_json, key):
 
 CHECKS = [
     Check('select', select_case(), run_select, quick=3000, thorough=120000, doc='select_edfa on generated libraries'),
-    Check('network', network_case(), run_network, quick=500, thorough=16000, doc='models chosen by the real design'),
+    Check('network', network_case(), run_network, quick=800, thorough=16000, doc='models chosen by the real design'),
     Check('multiband', multiband_case(), run_multiband, quick=1500, thorough=40000,
           doc='multiband models chosen by the real design for untyped C+L amplifiers'),
 ]
